@@ -13,3 +13,13 @@ Theorem C20_compress : lz4c_compress_stmt. Proof. exact lz4c_compress. Qed.
 Print Assumptions C20_compress.
 Theorem C20_stdio : lz4c_stdio_stmt.       Proof. exact lz4c_stdio. Qed.
 Print Assumptions C20_stdio.
+(* uncompressing restores the bytes: ONE `lz4c uncompress` (a single Reader reused through Reset for
+   all its arguments) over the outputs of one compress command, over outputs of DIFFERENT compress
+   commands (different flags) in any order, and through stdin/stdout *)
+From LZ4V Require Import Lz4cRoundtripSpec Lz4cRoundtripProofs.
+Theorem C20_roundtrip : lz4c_roundtrip_stmt.              Proof. exact lz4c_roundtrip. Qed.
+Print Assumptions C20_roundtrip.
+Theorem C20_roundtrip_mixed : lz4c_roundtrip_mixed_stmt.  Proof. exact lz4c_roundtrip_mixed. Qed.
+Print Assumptions C20_roundtrip_mixed.
+Theorem C20_roundtrip_stdio : lz4c_roundtrip_stdio_stmt.  Proof. exact lz4c_roundtrip_stdio. Qed.
+Print Assumptions C20_roundtrip_stdio.
